@@ -551,14 +551,13 @@ static std::vector<int> gen_order(Src& s, size_t n, Ctx& ctx, const char** name)
     return o;
 }
 
-// events of one datagram; `residue`: fragments are left in the reassembler at the end of this lane
-static std::vector<Ev> gen_lane(Src& s, const Dgram& d, int di, Ctx& ctx, bool& residue, std::string& what) {
+// events of one datagram
+static std::vector<Ev> gen_lane(Src& s, const Dgram& d, int di, Ctx& ctx, std::string& what) {
     std::vector<Ev> seq;
     size_t n = d.frags.size();
     if (n < 2) {
         seq.push_back(Ev{Ev::PKT, di, 0});
         if (s.chance(15)) seq.push_back(Ev{Ev::PKT, di, 0});
-        residue = false;
         what = "unfragmented";
         return seq;
     }
@@ -611,13 +610,6 @@ static std::vector<Ev> gen_lane(Src& s, const Dgram& d, int di, Ctx& ctx, bool& 
         seq.insert(seq.begin() + s.pick(seq.size() + 1), Ev{Ev::REMOVE_OTHER_ID, di, 0});
         what += " +remove_stream(other id)";
     }
-    // what is left in the reassembler afterwards
-    std::set<int> have;
-    for (const Ev& e : seq) {
-        if (e.t == Ev::REMOVE) have.clear();
-        else if (e.t == Ev::PKT) { have.insert(e.fi); if (have.size() == n) have.clear(); }
-    }
-    residue = !have.empty();
     return seq;
 }
 
@@ -739,8 +731,7 @@ void prop(Src& s, Ctx& ctx) {
         Bytes rec = s.bytes(REC);
         Src q(rec.data(), rec.size());
         gen_dgram(q, ds, i, i >= nd, ctx);
-        bool residue = false;
-        std::vector<Ev> seq = gen_lane(s, ds[i], (int)i, ctx, residue, plans[i]);
+        std::vector<Ev> seq = gen_lane(s, ds[i], (int)i, ctx, plans[i]);
         {
             std::set<int> seen;
             for (const Ev& e : seq) if (e.t == Ev::PKT && !seen.insert(e.fi).second) any_dup = true;
@@ -840,12 +831,11 @@ void prop(Src& s, Ctx& ctx) {
 
     // ---- statistics
     size_t nfragmented = 0, maxfr = 0;
-    bool any_twin = false, big = false;
+    bool any_twin = false;
     for (const Dgram& d : ds) {
         if (d.frags.size() > 1) ++nfragmented;
         maxfr = std::max(maxfr, d.frags.size());
         any_twin |= d.twin;
-        big |= d.payload.size() > 8192;
         ctx.hash(d.desc);
         ctx.hash(hash_bytes(d.payload.data(), std::min<size_t>(d.payload.size(), 64)));
         if (d.frags.size() > 1) {
@@ -908,7 +898,6 @@ void prop(Src& s, Ctx& ctx) {
             continue;
         }
         const Dgram& d = ds[e.dg];
-        const std::string twin_or = d.twin ? std::string(SIG_TWIN) : std::string();
         auto sig = [&](const char* specific) { return d.twin ? std::string(SIG_TWIN) : std::string(specific); };
         if (e.t == Ev::REMOVE || e.t == Ev::REMOVE_OTHER_ID || e.t == Ev::REMOVE_REVERSED) {
             Key k = key_of(d);
